@@ -350,58 +350,68 @@ theorem recvAndStore_rel : ∀ (fuel : Nat) (st : St) (v4 v6 keys : List (List N
       · exact hR.trans hr (ih { st with c := c, n := n } _ _ _)
       · exact hR.trans hr (sendErrorFromHost_rel hR.toEmitRel _ _ _ _ _ _)
 
+/-- the part of one iteration of `syncFirst` after its `rtr_receive_pdu` -/
+theorem syncFirst_succ_rel_aux (fuel : Nat) (ih : ∀ st : St, R st.n (syncFirst fuel st).2.n) (st : St) :
+    R (receivePdu st.c st.n st.t.own Gen.RTR_RECV_TIMEOUT).2.2 (syncFirst (fuel + 1) st).2.n := by
+  unfold syncFirst
+  generalize receivePdu st.c st.n st.t.own Gen.RTR_RECV_TIMEOUT = res
+  obtain ⟨rr, c, n⟩ := res
+  cases rr with
+  | rc code =>
+    simp only
+    split
+    · exact changeState_rel hR.toEmitRel _ _ _ _
+    · split
+      · exact changeState_rel hR.toEmitRel _ _ _ _
+      · exact hR.refl _
+  | ok raw =>
+    simp only
+    split
+    · exact ih { st with c := c, n := n }
+    · exact hR.refl _
+
 theorem syncFirst_rel : ∀ (fuel : Nat) (st : St), R st.n (syncFirst fuel st).2.n := by
   intro fuel
   induction fuel with
   | zero => intro st; exact hR.refl _
   | succ fuel ih =>
     intro st
-    unfold syncFirst
-    have hr := receivePdu_rel hR st.c st.n st.t.own Gen.RTR_RECV_TIMEOUT
-    generalize receivePdu st.c st.n st.t.own Gen.RTR_RECV_TIMEOUT = res at hr
-    obtain ⟨rr, c, n⟩ := res
-    simp only at hr
-    cases rr with
-    | rc code =>
-      simp only
-      split
-      · exact hR.trans hr (changeState_rel hR.toEmitRel _ _ _ _)
-      · split
-        · exact hR.trans hr (changeState_rel hR.toEmitRel _ _ _ _)
-        · exact hr
-    | ok raw =>
-      simp only
-      split
-      · exact hR.trans hr (ih { st with c := c, n := n })
-      · exact hr
+    exact hR.trans (receivePdu_rel hR st.c st.n st.t.own Gen.RTR_RECV_TIMEOUT) (syncFirst_succ_rel_aux hR fuel ih st)
 
-theorem syncG_rel (fuel : Nat) (st : St) : R st.n (syncG fuel st).2.1.n := by
+/-- the part of one iteration of `syncFirst` after its `rtr_receive_pdu` -/
+theorem syncFirst_succ_rel (fuel : Nat) (st : St) :
+    R (receivePdu st.c st.n st.t.own Gen.RTR_RECV_TIMEOUT).2.2 (syncFirst (fuel + 1) st).2.n :=
+  syncFirst_succ_rel_aux hR fuel (syncFirst_rel hR fuel) st
+
+/-- the part of `syncG` after `syncFirst` -/
+theorem syncG_after_first_rel (fuel : Nat) (st : St) : R (syncFirst fuel st).2.n (syncG fuel st).2.1.n := by
   unfold syncG
-  have h1 := syncFirst_rel hR fuel st
-  generalize syncFirst fuel st = sf at h1
+  generalize syncFirst fuel st = sf
   obtain ⟨r, st1⟩ := sf
-  simp only at h1
   cases r with
-  | none => exact h1
+  | none => exact hR.refl _
   | some raw =>
     simp only
     split
-    · exact hR.trans h1 (handleErrorPdu_rel hR.toEmitRel _ _ _ _)
-    · exact hR.trans h1 (changeState_rel hR.toEmitRel _ _ _ _)
+    · exact handleErrorPdu_rel hR.toEmitRel _ _ _ _
+    · exact changeState_rel hR.toEmitRel _ _ _ _
     · have hv := handleCacheResponse_rel hR.toEmitRel st1.c st1.ss st1.n st1.t.own raw
       generalize handleCacheResponse st1.c st1.ss st1.n st1.t.own raw = hcr at hv
       obtain ⟨okc, c2, ss2, n2⟩ := hcr
       simp only at hv ⊢
       split
-      · exact hR.trans h1 hv
+      · exact hv
       · have hr := recvAndStore_rel hR fuel { st1 with c := c2, ss := ss2, n := n2 } [] [] []
         generalize recvAndStore fuel { st1 with c := c2, ss := ss2, n := n2 } [] [] [] = rs at hr
         obtain ⟨ok, st2, g⟩ := rs
         simp only at hr ⊢
         split
-        · exact hR.trans h1 (hR.trans hv hr)
-        · exact hR.trans h1 (hR.trans hv hr)
-    · exact hR.trans h1 (sendErrorFromHost_rel hR.toEmitRel _ _ _ _ _ _)
+        · exact hR.trans hv hr
+        · exact hR.trans hv hr
+    · exact sendErrorFromHost_rel hR.toEmitRel _ _ _ _ _ _
+
+theorem syncG_rel (fuel : Nat) (st : St) : R st.n (syncG fuel st).2.1.n :=
+  hR.trans (syncFirst_rel hR fuel st) (syncG_after_first_rel hR fuel st)
 
 theorem waitForSync_rel (st : St) : R st.n (waitForSync st).2.n := by
   unfold waitForSync
